@@ -1,5 +1,6 @@
 (* Extraction of the C20 queue models.  ExtrOcamlBasic only: N/Z/positive/nat stay Coq datatypes. *)
 From Slock Require Import Queue.SegQueue.
 From Slock Require Import Queue.KeyQueues.
+From Slock Require Import Queue.LongWait.
 Require Import ExtrOcamlBasic.
-Extraction "model.ml" run_new run_key.
+Extraction "model.ml" run_new run_key run_long.
